@@ -357,3 +357,78 @@ Proof.
     destruct (IHt b s k bs st parent cy rest opn' bs' HT HP Hc Hb Ht Hd) as [s' [cy' [E' [T' [P' [V' W']]]]]].
     exists s', cy'. unfold size_rforest. cbn [atoms_rforest last_rforest]. (split; [exact E'|]; split; [exact T'|]; split; [exact P'|]; split; [exact V' | exact W']).
 Qed.
+
+(* ---------------------------------------------------------------- the whole pattern *)
+Definition den_root (t : rtree) : option dstate :=
+  match t with
+  | RNode _ cls f => match ring_items_spec 0 cls ([], []) with Some st1 => den_forest f 0 1 st1 | None => None end
+  end.
+
+Theorem ring_parse t bonds : rok_tree t -> den_root t = Some ([], bonds) ->
+  exists pr, parse (tok_rtree t) false = Ok pr /\ p_bonds pr = bonds /\ p_stereo_bonds pr = [].
+Proof.
+  destruct t as [p cls f]. intros [Hcl Hf] Hd. unfold parse. cbn [tok_rtree]. unfold atom_token at 1.
+  cbn [guard Z.eqb Pos.eqb zmem existsb orb loop].
+  assert (F : exists s1, step false p_init (0, PAtom (mkAt ""%string None None 0 None (p_stereo p))) = Ok s1 /\ TC 1 [] [] 0 [] s1).
+  { eexists. split; [reflexivity|]. unfold TC. cbn. repeat split; lia. }
+  destruct F as [s1 [E1 T1]]. unfold atom_token. rewrite E1.
+  assert (P1 : PI s1).
+  { pose proof (first_atom false 0 (mkAt ""%string None None 0 None (p_stereo p)) [] ltac:(cbn; tauto) (or_introl eq_refl)) as G.
+    change (set_last_stack p_init 0 []) with p_init in G. rewrite E1 in G. exact G. }
+  cbn [den_root] in Hd. destruct (ring_items_spec 0 cls ([], [])) as [[opn1 bs1]|] eqn:Ei; [|discriminate].
+  rewrite <- (app_nil_r (tok_rforest f)).
+  destruct (items_loop cls s1 1 [] [] 0 [] (tok_rforest f ++ []) opn1 bs1 T1 P1 ltac:(constructor) Hcl Ei) as [s2 [cy2 [E2 [T2 [P2 [V2 W2]]]]]].
+  rewrite E2. rewrite <- V2 in Hd.
+  destruct (proj2 ring_loop_all f s2 1 bs1 [] 0 cy2 [] [] bonds T2 P2 W2 Hf Hd) as [s' [cy' [E' [T' [P' [V' W']]]]]].
+  rewrite E'. cbn [loop].
+  assert (Cn : cy' = []) by (destruct cy'; [reflexivity | discriminate V']).
+  destruct T' as [H1 [H2 [H3 [H4 [H5 [H6 [H7 [H8 [H9 [H10 H11]]]]]]]]]]. unfold finish. rewrite H8, H9, Cn, H11.
+  eexists. split; [reflexivity|]. cbn [p_bonds p_stereo_bonds]. split; [exact H7 | exact H10].
+Qed.
+
+(* no bond from an atom to itself, no two bonds between the same two atoms *)
+Fixpoint distinct_pairs (seen : list (Z * Z)) (bs : list (Z * Z * payload)) : Prop :=
+  match bs with
+  | [] => True
+  | (n, m, _) :: r => n <> m /\ (forall p, In p seen -> ~ ((fst p = n /\ snd p = m) \/ (fst p = m /\ snd p = n))) /\
+                      distinct_pairs ((n, m) :: seen) r
+  end.
+
+Lemma bonds_loop_distinct bs : forall seen, distinct_pairs seen bs -> Forall payload_valid bs ->
+  bonds_loop [] bs seen = Ok (map to_sbond bs).
+Proof.
+  induction bs as [|[[n m] v] r IH]; intros seen Hd Hv; [reflexivity|].
+  cbn in Hd. destruct Hd as [H1 [H2 H3]]. inversion Hv as [|? ? [q Hq] Hr]; subst. cbn [snd] in Hq.
+  cbn [bonds_loop]. unfold stereo_of. cbn [zget]. rewrite Hq.
+  destruct (n =? m) eqn:E; [apply Z.eqb_eq in E; congruence|].
+  assert (Hex : existsb (fun p => ((fst p =? n) && (snd p =? m)) || ((fst p =? m) && (snd p =? n))) seen = false).
+  { destruct (existsb _ seen) eqn:Ex; [|reflexivity]. apply existsb_exists in Ex. destruct Ex as [p [Hp Hc]].
+    exfalso. apply (H2 p Hp). apply orb_true_iff in Hc. destruct Hc as [Hc|Hc]; apply andb_true_iff in Hc; destruct Hc as [C1 C2];
+      apply Z.eqb_eq in C1, C2; [left | right]; split; assumption. }
+  rewrite Hex. rewrite (IH _ H3 Hr). cbn [map]. f_equal. f_equal. unfold to_sbond, qb_of. cbn [fst snd]. rewrite Hq. reflexivity.
+Qed.
+
+(* the denotation of a pattern with branches and ring closures (token level) *)
+Theorem ring_denotation t qs bonds :
+  rok_tree t -> den_root t = Some ([], bonds) ->
+  Forall2 (fun p q => build_atom p = Ok q) (atoms_rtree t) qs ->
+  NoDup (explicit_maps (atoms_rtree t)) ->
+  distinct_pairs [] bonds -> Forall payload_valid bonds ->
+  full_of_tokens (tok_rtree t) (atoms_rtree t) =
+  Ok (map (fun pq => atom_result (fst pq) (snd pq)) (combine (atoms_rtree t) qs), map to_sbond bonds).
+Proof.
+  intros Hok Hd Hat Hnd Hdp Hv. unfold full_of_tokens.
+  destruct (ring_parse t bonds Hok Hd) as [pr [E [B1 B2]]]. rewrite E.
+  rewrite (atoms_loop_ok _ _ [] Hat Hnd) by (intros k _ []).
+  rewrite B1, B2, (bonds_loop_distinct bonds [] Hdp Hv). reflexivity.
+Qed.
+
+(* rejection: a closure whose two bond tokens differ, or a closure left open *)
+Theorem ring_examples :
+  let C := Query.mkParsed None None None None [ESym (s2l "C")] None None None None None false in
+  let t := RNode C [(None, 1)] (RNext None (RNode C [] (RNext (Some (1, PInt 2)) (RNode C [(Some (10, PZs [1; 2]), 1); (None, 2)]
+             (RNext None (RNode C [(None, 2)] RNil)))))) in
+  den_root t = Some ([], [(1, 0, PInt 1); (2, 1, PInt 2); (2, 0, PZs [1; 2]); (3, 2, PInt 1); (3, 2, PInt 1)]) /\
+  den_root (RNode C [(Some (1, PInt 2), 1)] (RNext None (RNode C [] (RNext None (RNode C [(Some (1, PInt 1), 1)] RNil))))) = None /\
+  den_root (RNode C [(None, 1)] (RNext None (RNode C [] RNil))) = Some ([(1, (0, None))], [(1, 0, PInt 1)]).
+Proof. cbv zeta. repeat split; reflexivity. Qed.
